@@ -36,6 +36,9 @@
 #ifndef IL_PROPERTY
 #define IL_PROPERTY "C04"
 #endif
+#ifndef IL_DEFAULT_ORACLE
+#define IL_DEFAULT_ORACLE 3            /* bit 0: C03 value oracle, bit 1: C04 exclusion / order oracle */
+#endif
 #define NOSAN __attribute__((no_sanitize("thread")))
 #define ID_F5 "C04-reader-chain-end-published-before-retain"
 
@@ -43,7 +46,7 @@ extern int __parsec_task_progress(parsec_execution_stream_t *es, parsec_task_t *
 extern int parsec_runtime_keep_highest_priority_task;
 
 /* ------------------------------------------------------------------ options (per process) */
-static int  O_threads = 2, O_keep = 0, O_lifo = 0, O_oracle = 3, O_trace = 0;
+static int  O_threads = 2, O_keep = 0, O_lifo = 0, O_oracle = IL_DEFAULT_ORACLE, O_trace = 0;
 static char O_known[2048] = "";
 static int is_known(const char *id) { char h[2100], n[128]; snprintf(h, sizeof(h), ",%s,", O_known); snprintf(n, sizeof(n), ",%s,", id); return strstr(h, n) != NULL; }
 
@@ -55,7 +58,7 @@ static const dd_cfg_t CFG = { 0, 0, 0, -1, -1, 0 };
 /* shared statistics (coordinator + all workers): per scenario, points per region class and per thread */
 enum { RC_TILE = 0, RC_READERS, RC_TFLOW, RC_TDATA, RC_TREF, RC_QUEUE, RC_BODY, RC_N };
 static const char *rc_name[RC_N] = { "tile", "copy.readers", "task.flow", "task.data", "task.refcount", "queue-op", "body" };
-typedef struct { long hits[RC_N]; long maxpt[4]; long execs; long again; long overlap_runs; long readers_together; long f5_hits; long spin_waits; } sstat_t;
+typedef struct { long hits[RC_N]; long maxpt[4]; long execs; long again; long overlap_runs; long readers_together; long f5_hits; long spin_waits; long suppressed; } sstat_t;
 static sstat_t *SS;
 
 /* ------------------------------------------------------------------ runtime objects */
@@ -68,12 +71,12 @@ static volatile int g_done;
 static int cur_scen = -1;
 
 /* ------------------------------------------------------------------ watch registry (mirror of cosched's, with classes) */
-typedef struct { uintptr_t lo, hi; int cls, tile; void *obj; } wreg_t;
+typedef struct { uintptr_t lo, hi; int cls, tile; void *obj; char label[24]; } wreg_t;
 static wreg_t WR[64]; static int nwr;
 static void w_watch(const volatile void *base, size_t len, int cls, int tile, void *obj, const char *name)
 {
     if (nwr >= 62) { fprintf(stderr, "c04_il: too many watched regions\n"); abort(); }
-    WR[nwr].lo = (uintptr_t)base; WR[nwr].hi = (uintptr_t)base + len; WR[nwr].cls = cls; WR[nwr].tile = tile; WR[nwr].obj = obj; nwr++;
+    WR[nwr].lo = (uintptr_t)base; WR[nwr].hi = (uintptr_t)base + len; WR[nwr].cls = cls; WR[nwr].tile = tile; WR[nwr].obj = obj; snprintf(WR[nwr].label, sizeof(WR[nwr].label), "%s", name ? name : ""); nwr++;
     cs_watch(base, len, name);
 }
 static inline NOSAN wreg_t *w_find(uintptr_t a, int size)
@@ -88,7 +91,7 @@ static long pt_thread[8]; static long hits_local[RC_N]; static int32_t q_word;  
 static struct { int open, by; parsec_dtd_task_t *reader; } win[DD_MAXTILES];
 static struct { int hit, tile; parsec_dtd_task_t *reader, *inserted; int inserted_is_writer; } f5;
 static struct { uintptr_t addr; int n; } spin[8];
-static long n_again, n_spinwait;
+static long n_again, n_spinwait, n_suppressed; static int lock_by[DD_MAXTILES]; static int O_csred = 1;
 
 /* program-task id of a DTD task (first VALUE parameter of class "T"), -1 for runtime tasks */
 static NOSAN int tid_of(parsec_dtd_task_t *t)
@@ -107,32 +110,28 @@ static void task_label(parsec_dtd_task_t *t, char *b, size_t n)
     else snprintf(b, n, "%s", cn);
 }
 
-/* ------------------------------------------------------------------ trace (replay only) */
-typedef struct { int th, kind, cls, tile, off; void *pc; char note[40]; } tev_t;
-static tev_t *TEV; static int ntev; enum { TEV_MAX = 20000 };
-static NOSAN void tev_add(int th, int kind, int cls, int tile, int off, void *pc, const char *note)
-{
-    if (!TEV || ntev >= TEV_MAX) return;
-    tev_t *e = &TEV[ntev++]; e->th = th; e->kind = kind; e->cls = cls; e->tile = tile; e->off = off; e->pc = pc;
-    int i = 0; if (note) for (; note[i] && i < 39; i++) e->note[i] = note[i];
-    e->note[i] = 0;
-}
-static void tev_dump(void)
+/* ------------------------------------------------------------------ trace (replay only): one line per scheduling point, printed at once
+ * (a deadlock or a crash inside the library never returns to the harness) */
+static NOSAN void tev_add(int th, int kind, int cls, int tile, int off, void **bt, int nbt, const char *note)
 {
     static const char *kn[] = { "read", "write", "atomic-load", "atomic-rmw", "range-read", "range-write", "WAIT", "point" };
-    if (!TEV) return;
-    printf("  --- schedule trace: %d events at watched memory (thread, access, object, code address) ---\n", ntev);
-    for (int i = 0; i < ntev; i++) {
-        tev_t *e = &TEV[i]; Dl_info di; char where[300] = "";
-        if (e->pc && dladdr(e->pc, &di) && di.dli_fname) snprintf(where, sizeof(where), "@%s+0x%lx", di.dli_fname, (unsigned long)((uintptr_t)e->pc - (uintptr_t)di.dli_fbase));
-        printf("  trace T%d %-11s %-13s", e->th, kn[e->kind & 7], e->cls >= 0 ? rc_name[e->cls] : "-");
-        if (e->tile >= 0) printf(" tile %c", 'a' + e->tile);
-        if (e->cls >= 0 && e->cls <= RC_TREF) printf(" +%d", e->off);
-        if (e->note[0]) printf(" [%s]", e->note);
-        printf(" %s\n", where);
+    static long seq = 0;
+    if (!O_trace) return;
+    char where[400] = ""; Dl_info di;
+    for (int i = 1; i < nbt; i++) {        /* first frame outside the harness filter and the vtsan shim (which tail-calls for plain accesses) */
+        if (!dladdr(bt[i], &di) || !di.dli_fname) continue;
+        if (strstr(di.dli_fname, "libvtsan")) continue;
+        snprintf(where, sizeof(where), " @%s+0x%lx", di.dli_fname, (unsigned long)((uintptr_t)bt[i] - (uintptr_t)di.dli_fbase - 1));
+        break;
     }
+    printf("  trace %4ld T%d %-11s %-13s", seq++, th, kn[kind & 7], cls >= 0 ? rc_name[cls] : "-");
+    if (tile >= 0) printf(" tile %c", 'a' + tile);
+    if (cls >= 0 && cls <= RC_TREF) printf(" +%d", off);
+    if (note && note[0]) printf(" [%s]", note);
+    printf("%s\n", where);
     fflush(stdout);
 }
+static void tev_dump(void) { fflush(stdout); }
 
 /* ------------------------------------------------------------------ the access filter in front of cosched's callback */
 static vtsan_cb_t il_real_cb;
@@ -142,15 +141,11 @@ static NOSAN void il_filter(int kind, void *addr, int size)
     if (self < 0 || !il_real_cb) { if (il_real_cb) il_real_cb(kind, addr, size); return; }
     wreg_t *r = w_find((uintptr_t)addr, size);
     if (!r) return;                      /* not a scheduling point for cosched either */
-    /* a thread that keeps re-reading one watched location (the two unhooked spin loops of overlap_strategies.c wait
-     * for DESC_OF(task)->task to be set by the inserting thread) cannot progress before another thread writes */
-    if (kind == VTSAN_READ && spin[self].addr == (uintptr_t)addr) {
-        if (++spin[self].n >= 6) { n_spinwait++; if (O_trace) tev_add(self, 6, -1, -1, 0, NULL, "spin on one location -> wait"); cs_wait(); spin[self].n = 0; }
-    } else { spin[self].addr = (kind == VTSAN_READ) ? (uintptr_t)addr : 0; spin[self].n = 0; }
-    hits_local[r->cls]++; pt_thread[self]++;
-    /* F5 window bookkeeping (attribution predicate only; never changes the schedule) */
-    if (r->cls == RC_TILE) {
+    volatile int32_t *lockw = NULL; int lock_rmw = 0, close_win = -1;
+    if (r->cls == RC_TILE && r->obj) {
         parsec_dtd_tile_t *tl = (parsec_dtd_tile_t *)r->obj;
+        lockw = (volatile int32_t *)&tl->last_user.atomic_lock;
+        /* F5 window bookkeeping (attribution predicate only; never changes the schedule) */
         if ((uintptr_t)addr == (uintptr_t)&tl->last_user.alive) {
             if (kind == VTSAN_WRITE && in_walk[self] > 0 && tl->last_user.task != NULL && (tl->last_user.op_type & PARSEC_GET_OP_TYPE) == PARSEC_INPUT) {
                 win[r->tile].open = 1; win[r->tile].by = self; win[r->tile].reader = tl->last_user.task;
@@ -158,12 +153,32 @@ static NOSAN void il_filter(int kind, void *addr, int size)
                 f5.hit = 1; f5.tile = r->tile; f5.reader = win[r->tile].reader; f5.inserted = cur_insert[self];
             }
         }
-    } else if (r->cls == RC_READERS && kind == VTSAN_ATOMIC_RMW && win[r->tile].open && win[r->tile].by == self) win[r->tile].open = 0;
+        if ((uintptr_t)addr == (uintptr_t)lockw) {
+            if (kind == VTSAN_WRITE) lock_by[r->tile] = -1;          /* unlock (plain store of 0) */
+            lock_rmw = (kind == VTSAN_ATOMIC_RMW);
+        } else if (O_csred && lock_by[r->tile] == self && *lockw != 0) {
+            /* lock-based reduction: an access to last_user / last_writer by the thread that HOLDS the tile lock is not a
+             * scheduling point (every other access to these fields is; a thread that touches them without the lock is
+             * still interleaved with the critical section's boundaries) */
+            n_suppressed++;
+            if (O_trace) { void *bt[5]; int n = backtrace(bt, 5); tev_add(self, kind, r->cls, r->tile, (int)((uintptr_t)addr - r->lo), bt, n, "holds the tile lock: not a point"); }
+            return;
+        }
+    } else if (r->cls == RC_READERS && kind == VTSAN_ATOMIC_RMW && win[r->tile].open && win[r->tile].by == self) close_win = r->tile;
+    /* a thread that keeps re-reading one watched location (the two unhooked spin loops of overlap_strategies.c wait
+     * for DESC_OF(task)->task to be set by the inserting thread) cannot progress before another thread writes */
+    if (kind == VTSAN_READ && spin[self].addr == (uintptr_t)addr) {
+        if (++spin[self].n >= 6) { n_spinwait++; if (O_trace) tev_add(self, 6, -1, -1, 0, NULL, 0, "spin on one location -> wait"); cs_wait(); spin[self].n = 0; }
+    } else { spin[self].addr = (kind == VTSAN_READ) ? (uintptr_t)addr : 0; spin[self].n = 0; }
+    hits_local[r->cls]++; pt_thread[self]++;
     if (O_trace) {
-        void *bt[4]; int n = backtrace(bt, 4);
-        tev_add(self, kind, r->cls, r->tile, (int)((uintptr_t)addr - r->lo), n >= 3 ? bt[2] : NULL, NULL);
+        void *bt[5]; int n = backtrace(bt, 5);
+        tev_add(self, kind, r->cls, r->tile, (int)((uintptr_t)addr - r->lo), bt, n, r->label);
     }
     il_real_cb(kind, addr, size);
+    /* back on the CPU, the access itself executes next and nothing can intervene before it */
+    if (lock_rmw && *lockw == 0) lock_by[r->tile] = self;       /* this CAS(0,1) will succeed */
+    if (close_win >= 0) win[close_win].open = 0;                /* the reader is counted now */
 }
 static void il_enter_thread(int i)
 {
@@ -177,7 +192,7 @@ static NOSAN void il_point(int cls, int is_write, const char *note)
     int self = cs_self();
     if (self < 0) return;
     hits_local[cls]++; pt_thread[self]++; spin[self].addr = 0;
-    if (O_trace) tev_add(self, 7, cls, -1, 0, NULL, note);
+    if (O_trace) tev_add(self, 7, cls, -1, 0, NULL, 0, note);
     if (cls == RC_QUEUE && il_real_cb) il_real_cb(is_write ? VTSAN_WRITE : VTSAN_READ, &q_word, 4);
     else cs_point_here();
 }
@@ -196,7 +211,7 @@ int parsec_barrier_wait(parsec_barrier_t *barrier)
 int nanosleep(const struct timespec *req, struct timespec *rem)
 {
     static int (*real)(const struct timespec *, struct timespec *) = NULL;
-    if (cs_self() >= 0) { if (O_trace) tev_add(cs_self(), 6, -1, -1, 0, NULL, "nanosleep -> wait"); cs_wait(); return 0; }
+    if (cs_self() >= 0) { if (O_trace) tev_add(cs_self(), 6, -1, -1, 0, NULL, 0, "nanosleep -> wait"); cs_wait(); return 0; }
     if (!real) real = (int (*)(const struct timespec *, struct timespec *))dlsym(RTLD_NEXT, "nanosleep");
     return real(req, rem);
 }
@@ -209,11 +224,21 @@ int usleep(useconds_t us)
 }
 static void watch_task(parsec_dtd_task_t *t)
 {
-    int nf = t->super.task_class->nb_flows; char nm[24], lb[16];
+    int nf = t->super.task_class->nb_flows; char nm[40], lb[16];
     task_label(t, lb, sizeof(lb));
     int tile = nf > 0 && FLOW_OF(t, 0)->tile ? (int)FLOW_OF(t, 0)->tile->key : -1;
-    snprintf(nm, sizeof(nm), "%s.flow", lb);
-    w_watch(&t->flow_count, (size_t)((char *)TASK_FLOW_OF(t, nf) - (char *)&t->flow_count), RC_TFLOW, tile, t, nm);
+    /* flow_count, then per flow the parent/desc links and the flags word. arena_index, op_type and tile of a flow record
+     * are written before the task is reachable from the tile or from a predecessor and never again: reads of them commute
+     * with everything and are not scheduling points */
+    snprintf(nm, sizeof(nm), "%s.flow_count", lb);
+    w_watch(&t->flow_count, sizeof(int32_t), RC_TFLOW, tile, t, nm);
+    for (int f = 0; f < nf; f++) {
+        int ft = FLOW_OF(t, f)->tile ? (int)FLOW_OF(t, f)->tile->key : -1;
+        snprintf(nm, sizeof(nm), "%s.f%d.parent+desc", lb, f);
+        w_watch(PARENT_OF(t, f), (size_t)((char *)(DESC_OF(t, f) + 1) - (char *)PARENT_OF(t, f)), RC_TFLOW, ft, t, nm);
+        snprintf(nm, sizeof(nm), "%s.f%d.flags", lb, f);
+        w_watch(&FLOW_OF(t, f)->flags, sizeof(int), RC_TFLOW, ft, t, nm);
+    }
     snprintf(nm, sizeof(nm), "%s.data", lb);
     if (nf > 0) w_watch(&t->super.data[0], (size_t)nf * sizeof(t->super.data[0]), RC_TDATA, tile, t, nm);
     snprintf(nm, sizeof(nm), "%s.ref", lb);
@@ -256,8 +281,8 @@ void parsec_dtd_ordering_correctly(parsec_execution_stream_t *es, const parsec_t
 }
 
 /* ------------------------------------------------------------------ the harness scheduler module */
-typedef struct { parsec_task_t *t; long stall_epoch; } qent_t;
-static qent_t Q[64]; static int qn; static long q_epoch; static parsec_task_t *q_last[8];
+typedef struct { parsec_task_t *t; int stalled; } qent_t;
+static qent_t Q[64]; static int qn; static int q_gave[8];   /* stream got a task at its previous select */
 static char ORDER[1024]; static int order_len;
 static int q_install(parsec_context_t *c) { (void)c; qn = 0; return 0; }
 static int q_flow_init(parsec_execution_stream_t *es, struct parsec_barrier_t *b) { (void)es; (void)b; return 0; }
@@ -268,31 +293,42 @@ static int q_schedule(parsec_execution_stream_t *es, parsec_task_t *ring, int32_
     parsec_list_item_t *it = &ring->super;
     do { if (n >= 64) abort(); arr[n++] = (parsec_task_t *)it; it = (parsec_list_item_t *)it->list_next; } while (it != &ring->super);
     il_point(RC_QUEUE, 1, distance > 0 ? "schedule(AGAIN)" : "schedule");
-    int self = cs_self();
     for (int i = 0; i < n; i++) {
         PARSEC_LIST_ITEM_SINGLETON(&arr[i]->super);
         if (qn >= 64) abort();
-        Q[qn].t = arr[i]; Q[qn].stall_epoch = -1;
-        /* a task handed back by __parsec_task_progress because prepare_input answered AGAIN (distance + 1): not offered
-         * again before some task has completed (retrying earlier is a no-op: the reader count only drops at completions) */
-        if (distance > 0) { Q[qn].stall_epoch = q_epoch; n_again++; if (self >= 0 && q_last[self] == arr[i]) q_last[self] = NULL; }
+        /* distance > 0 only comes from __parsec_task_progress handing a task back because prepare_input answered AGAIN */
+        Q[qn].t = arr[i]; Q[qn].stalled = (distance > 0);
+        if (distance > 0) n_again++;
         qn++;
     }
     return 0;
 }
+/* a refused writer is offered again only when none of the copies it writes has a reader left: with readers > 0
+ * data_lookup_of_dtd_task would answer AGAIN again and the retry would only put the task back (no behaviour is lost) */
+static NOSAN int q_eligible(int i)
+{
+    if (!Q[i].stalled) return 1;
+    parsec_dtd_task_t *t = (parsec_dtd_task_t *)Q[i].t;
+    for (int f = 0; f < t->super.task_class->nb_flows; f++) {
+        parsec_data_copy_t *c = t->super.data[f].data_in;
+        if (c && (FLOW_OF(t, f)->op_type & PARSEC_OUTPUT) && c->readers > 0) return 0;
+    }
+    return 1;
+}
 static parsec_task_t *q_select(parsec_execution_stream_t *es, int32_t *distance)
 {
     int me = es->th_id; *distance = 0;
-    il_point(RC_QUEUE, q_last[me] != NULL, q_last[me] ? "select (previous task complete)" : "select");
-    if (q_last[me]) { q_last[me] = NULL; q_epoch++; }       /* the previous task of this stream is complete */
+    /* coming back to select after a task means that task is complete, which may have fired the termination detector
+     * (not watched): the point counts as a write so that a thread waiting in parsec_taskpool_wait is re-enabled */
+    il_point(RC_QUEUE, q_gave[me], q_gave[me] ? "select (previous task complete)" : "select");
+    q_gave[me] = 0;
     int pick = -1;
-    if (!O_lifo) { for (int i = 0; i < qn; i++) if (Q[i].stall_epoch < 0 || Q[i].stall_epoch < q_epoch) { pick = i; break; } }
-    else { for (int i = qn - 1; i >= 0; i--) if (Q[i].stall_epoch < 0 || Q[i].stall_epoch < q_epoch) { pick = i; break; } }
+    if (!O_lifo) { for (int i = 0; i < qn; i++) if (q_eligible(i)) { pick = i; break; } }
+    else { for (int i = qn - 1; i >= 0; i--) if (q_eligible(i)) { pick = i; break; } }
     if (pick < 0) return NULL;
     parsec_task_t *t = Q[pick].t;
     for (int j = pick; j + 1 < qn; j++) Q[j] = Q[j + 1];
-    qn--;
-    q_last[me] = t;
+    qn--; q_gave[me] = 1;
     { char lb[16]; task_label((parsec_dtd_task_t *)t, lb, sizeof(lb)); if (order_len + 24 < (int)sizeof(ORDER)) order_len += snprintf(ORDER + order_len, sizeof(ORDER) - order_len, "%s%s@%d", order_len ? " " : "", lb, me); }
     return t;
 }
@@ -314,8 +350,10 @@ static void worker(void *arg)
 {
     int i = (int)(intptr_t)arg; il_enter_thread(i);
     while (!g_done) {
-        int32_t d = 0;
-        parsec_task_t *t = q_select(ES[i], &d);
+        int32_t d = 0; parsec_task_t *t;
+        /* as __parsec_get_next_task (static inline in scheduling.c): the task kept by __parsec_schedule_vp first */
+        if (NULL != (t = ES[i]->next_task)) { ES[i]->next_task = NULL; d = 1; }
+        else t = q_select(ES[i], &d);
         if (t) __parsec_task_progress(ES[i], t, d);
         else { if (g_done) break; cs_wait(); }
     }
@@ -346,7 +384,8 @@ static void fail_or_known(const dd_prog_t *p, const char *msg)
         }
     }
     if (O_trace) tev_dump();
-    if (attributed && is_known(ID_F5)) { cs_known("%s program=[%s]: %s (%s)", ID_F5, PNAME[cur_scen], msg, why); return; }
+    if (attributed && is_known(ID_F5)) {       /* one line per (program, reader): the schedule-dependent text stays in the replayable message only */
+        cs_known("%s scenario=%s: %s; a later writer of the tile ran before or together with that reader (C04 stamps/counters or C03 value oracle)", ID_F5, PNAME[cur_scen], why); return; }
     if (attributed) cs_fail("%s [shape of finding %s, which is not listed in known_findings.json: %s]", msg, ID_F5, why);
     cs_fail("%s", msg);
 }
@@ -359,11 +398,10 @@ static void run_prog(int idx)
     memset(dd_writers_in, 0, sizeof(dd_writers_in)); memset(dd_readers_in, 0, sizeof(dd_readers_in));
     dd_cur_prog = p; dd_cur_cfg = &CFG; dd_norecycle = 1; dd_nparked = 0;
     dd_hook_body_inside = body_inside;
-    nwr = 0; qn = 0; q_epoch = 0; memset(q_last, 0, sizeof(q_last)); order_len = 0; ORDER[0] = 0; g_done = 0;
+    nwr = 0; qn = 0; memset(q_gave, 0, sizeof(q_gave)); order_len = 0; ORDER[0] = 0; g_done = 0;
     memset(in_walk, 0, sizeof(in_walk)); memset(in_insert, 0, sizeof(in_insert)); memset(cur_insert, 0, sizeof(cur_insert));
     memset(pt_thread, 0, sizeof(pt_thread)); memset(hits_local, 0, sizeof(hits_local)); memset(win, 0, sizeof(win)); memset(&f5, 0, sizeof(f5)); memset(spin, 0, sizeof(spin));
-    n_again = 0; n_spinwait = 0; ntev = 0; il_real_cb = NULL;
-    if (O_trace && !TEV) TEV = (tev_t *)calloc(TEV_MAX, sizeof(tev_t));
+    n_again = 0; n_spinwait = 0; n_suppressed = 0; il_real_cb = NULL; for (int i = 0; i < DD_MAXTILES; i++) lock_by[i] = -1;
     /* ---- objects ---- */
     if (!DC) { uint32_t ow[DD_MAXTILES] = { 0, 0, 0, 0 }; DC = vdc_new(DD_MAXTILES, sizeof(int64_t), 1, 0, ow); parsec_dtd_data_collection_init(&DC->super); }
     dd_cur_dc = &DC->super;
@@ -377,7 +415,9 @@ static void run_prog(int idx)
         char nm[24];
         TILE[i] = parsec_dtd_tile_of(&DC->super, (parsec_data_key_t)i);
         snprintf(nm, sizeof(nm), "tile_%c", 'a' + i);
-        w_watch(TILE[i], sizeof(parsec_dtd_tile_t), RC_TILE, i, TILE[i], nm);
+        w_watch(&TILE[i]->last_user, (size_t)((char *)(&TILE[i]->last_writer + 1) - (char *)&TILE[i]->last_user), RC_TILE, i, TILE[i], nm);
+        snprintf(nm, sizeof(nm), "tile_%c.ref", 'a' + i);
+        w_watch(&TILE[i]->super.super.obj_reference_count, sizeof(int32_t), RC_TILE, i, NULL, nm);
         snprintf(nm, sizeof(nm), "copy_%c.readers", 'a' + i);
         w_watch(&TILE[i]->data_copy->readers, sizeof(int32_t), RC_READERS, i, TILE[i]->data_copy, nm);
     }
@@ -387,7 +427,7 @@ static void run_prog(int idx)
     cs_run(O_threads, b, args);
     /* ---- statistics ---- */
     sstat_t *s = &SS[idx];
-    __atomic_fetch_add(&s->execs, 1, __ATOMIC_RELAXED); __atomic_fetch_add(&s->again, n_again, __ATOMIC_RELAXED); __atomic_fetch_add(&s->spin_waits, n_spinwait, __ATOMIC_RELAXED);
+    __atomic_fetch_add(&s->execs, 1, __ATOMIC_RELAXED); __atomic_fetch_add(&s->again, n_again, __ATOMIC_RELAXED); __atomic_fetch_add(&s->spin_waits, n_spinwait, __ATOMIC_RELAXED); __atomic_fetch_add(&s->suppressed, n_suppressed, __ATOMIC_RELAXED);
     for (int t = 0; t < O_threads; t++) { long o = s->maxpt[t]; while (pt_thread[t] > o && !__atomic_compare_exchange_n(&s->maxpt[t], &o, pt_thread[t], 0, __ATOMIC_RELAXED, __ATOMIC_RELAXED)) ; }
     for (int c = 0; c < RC_N; c++) __atomic_fetch_add(&s->hits[c], hits_local[c], __ATOMIC_RELAXED);
     if (f5.hit) __atomic_fetch_add(&s->f5_hits, 1, __ATOMIC_RELAXED);
@@ -428,9 +468,15 @@ static void prog_name(const dd_prog_t *p, char *b, size_t cap)
 {
     char ps[128]; dd_prog_print(p, ps, sizeof(ps));
     for (char *c = ps; *c; c++) if (*c == '|') *c = '_';
-    snprintf(b, cap, "il-t%d-k%d-%c-%s", O_threads, O_keep, O_lifo ? 'l' : 'f', ps);
+    snprintf(b, cap, "il-t%d-k%d-%c%d-%s", O_threads, O_keep, O_lifo ? 'l' : 'f', O_csred, ps);
 }
-static void add_prog(const dd_prog_t *p) { if (NPROG >= MAXPROG) { fprintf(stderr, "c04_il: too many programs\n"); exit(2); } PROG[NPROG] = *p; prog_name(p, PNAME[NPROG], sizeof(PNAME[0])); NPROG++; }
+static void add_prog(const dd_prog_t *p)
+{
+    if (NPROG >= MAXPROG) { fprintf(stderr, "c04_il: too many programs\n"); exit(2); }
+    PROG[NPROG] = *p; prog_name(p, PNAME[NPROG], sizeof(PNAME[0]));
+    for (int i = 0; i < NPROG; i++) if (!strcmp(PNAME[i], PNAME[NPROG])) return;      /* named twice on the command line / by the family */
+    NPROG++;
+}
 static int add_prog_text(const char *s)
 {
     char b[128]; snprintf(b, sizeof(b), "%s", s); for (char *c = b; *c; c++) if (*c == '_') *c = '|';
@@ -486,6 +532,7 @@ int main(int argc, char **argv)
         else if (!strcmp(argv[i], "--keep") && i + 1 < argc) O_keep = atoi(argv[++i]);
         else if (!strcmp(argv[i], "--lifo") && i + 1 < argc) O_lifo = atoi(argv[++i]);
         else if (!strcmp(argv[i], "--oracle") && i + 1 < argc) O_oracle = atoi(argv[++i]);
+        else if (!strcmp(argv[i], "--csred") && i + 1 < argc) O_csred = atoi(argv[++i]);
         else if (!strcmp(argv[i], "--known") && i + 1 < argc) snprintf(O_known, sizeof(O_known), "%s", argv[++i]);
         else if (!strcmp(argv[i], "--prog") && i + 1 < argc && nprogs < 64) progs[nprogs++] = argv[++i];
         else if (!strcmp(argv[i], "--nt") && i + 1 < argc) { const char *v = argv[++i]; nt_lo = atoi(v); nt_hi = strchr(v, ':') ? atoi(strchr(v, ':') + 1) : nt_lo; }
@@ -497,9 +544,9 @@ int main(int argc, char **argv)
     }
     av[ac] = NULL;
     if (replay) {
-        char scen[160]; int t, k; char q; char prog[128];
-        if (replay_scenario(replay, scen, sizeof(scen)) || sscanf(scen, "il-t%d-k%d-%c-%127s", &t, &k, &q, prog) != 4) { fprintf(stderr, "c04_il: cannot parse the scenario of %s\n", replay); return 2; }
-        O_threads = t; O_keep = k; O_lifo = (q == 'l'); O_trace = 1; O_known[0] = 0;
+        char scen[160]; int t, k, cr; char q; char prog[128];
+        if (replay_scenario(replay, scen, sizeof(scen)) || sscanf(scen, "il-t%d-k%d-%c%d-%127s", &t, &k, &q, &cr, prog) != 5) { fprintf(stderr, "c04_il: cannot parse the scenario of %s\n", replay); return 2; }
+        O_threads = t; O_keep = k; O_lifo = (q == 'l'); O_csred = cr; O_trace = 1; O_known[0] = 0;
         if (add_prog_text(prog)) { fprintf(stderr, "c04_il: bad program %s\n", prog); return 2; }
     } else {
         for (int i = 0; i < nprogs; i++) if (add_prog_text(progs[i])) { fprintf(stderr, "c04_il: bad program %s\n", progs[i]); return 2; }
@@ -520,8 +567,8 @@ int main(int argc, char **argv)
                 for (int c = 0; c < RC_N; c++) fprintf(f, "%s\"%s\":%ld", c ? "," : "", rc_name[c], s->hits[c]);
                 fprintf(f, "},\"max_points_per_thread\":[");
                 for (int t = 0; t < O_threads; t++) fprintf(f, "%s%ld", t ? "," : "", s->maxpt[t]);
-                fprintf(f, "],\"again_resubmissions\":%ld,\"runs_with_bodies_overlapping\":%ld,\"runs_with_readers_together\":%ld,\"runs_with_f5_window_hit\":%ld,\"spin_waits\":%ld}%s\n",
-                        s->again, s->overlap_runs, s->readers_together, s->f5_hits, s->spin_waits, i + 1 < NPROG ? "," : "");
+                fprintf(f, "],\"again_resubmissions\":%ld,\"runs_with_bodies_overlapping\":%ld,\"runs_with_readers_together\":%ld,\"runs_with_f5_window_hit\":%ld,\"spin_waits\":%ld,\"accesses_inside_tile_lock_not_points\":%ld}%s\n",
+                        s->again, s->overlap_runs, s->readers_together, s->f5_hits, s->spin_waits, s->suppressed, i + 1 < NPROG ? "," : "");
             }
             fprintf(f, "}\n"); fclose(f);
         }
